@@ -84,7 +84,7 @@ class SaveSim:
     def rule(self, prop):
         return ('plans drawn from VERIF_SEED: world (any convention, small) x generated time-units string x process TZ x 1-3 '
                 'save steps (Convention.to_netcdf / utils.to_netcdf_with_fixes; source = world or previous output) x storage '
-                'faults at the write / r+ reopen / setncattr / sync seams x exit|crash_after_ack|crash_at. Non-trivial = at '
+                'faults at the write (ENOSPC / EIO / EACCES / partial) / source read / r+ reopen / setncattr / sync seams, once or persistent, x exit|crash_after_ack|crash_at; second save of the same object; in-process and new-process retries. Non-trivial = at '
                 'least one save was acknowledged and its file judged by another process. Distinct = distinct signature '
                 '(convention, materialisation, TZ, offset class, units style, per-step via/source/end, fired faults).')
 
